@@ -28,6 +28,14 @@ checks = {
    technique="exhaustive enumeration over every registered RR type of reflection-built variant sets (copy / TTL / owner-case / embedded-name-case / one-field-changed / class / other type; all ordered pairs and triples; built and wire-origin) against an identity known by construction and a wire-derived reference relation; all record lists ≤5-6 over a 10-record pool for Dedup",
    text="IsDuplicate is checked to be reflexive, symmetric and transitive on all pairs/triples of every type's variant set, to agree with the by-construction and wire-derived equality, and Dedup to return first representatives with minimum TTL for every list in the bounded space.",
    note="Trusted: the per-type variant generator (reflection over struct fields and tags, cross-checked against a hand-written name-field table). OPT and PrivateRR (constant-false isDuplicate) are outside the relation's domain."),
+ "C11": dict(cat="fault_enumeration", eng="E1+E3", ref="§5 C11",
+   technique="exhaustive enumeration of TSIG configurations (message shapes × HMAC algorithms × secrets × request MAC × timers-only × name case × fudge × signing-time edges) and of faults (every single-bit flip, every truncation, every single-field replacement of the TSIG RR, TSIG absent/moved/duplicated, envelope chains 1..4 with every envelope altered/removed/duplicated/swapped; scripted in-memory Conn/Transfer/Server) on the real TsigGenerate/TsigVerify/Conn/Transfer code against an independent RFC 8945 digest model (crypto/hmac)",
+   text="Every generated MAC equals the reference HMAC over the RFC 8945 digest input; TsigVerify succeeds exactly where the reference says (time edges with the stable-second protocol); every enumerated fault yields an error or is one of the stated digest-neutral alterations. Complete within the enumerated shapes.",
+   note="Trusted: harness/ref/tsig (own wire walker + digest construction), crypto/hmac. Excluded from 'altered': the two ID octets (digest is over the original ID), ASCII case of key/algorithm names, octets outside the timers-only digest; counted per class in the evidence."),
+ "C15": dict(cat="fault_enumeration", eng="E3", ref="§5 C15",
+   technique="exhaustive enumeration of zone shapes (AXFR n≤5, IXFR up-to-date/fallback/1-3 difference sequences) × all 2^(m-1) envelope compositions × TSIG on/off × read segmentation, with every single fault (and all fault pairs for small zones: drop/duplicate/swap/alter/unsign/re-key an envelope, EOF at every octet, wrong ID, RCODE, non-SOA first, empty answer) replayed through the real Transfer.In / Transfer.Out / Server over a scripted in-memory connection against a reference termination machine",
+   text="Delivered records, termination point, error/no-error verdict and close ordering (connection before channel) agree with the reference specification (RFC 5936 §2.2, RFC 1995 §4, RFC 8945 §5.3.1) on every enumerated transfer.",
+   note="Trusted: harness/ref/xfr; the scripted sender's MAC chaining uses dns.TsigGenerate for the digest (its correctness is C11). Streams with records behind the closing SOA inside one message are recorded as observations only."),
 }
 na_reason = "check not built yet in this session (planned in DESIGN.md §5); not claimed until it runs"
 m = {
